@@ -337,6 +337,11 @@ func checkC06(w *World, r *Report) {
 			mid = append(mid, R[1:len(R)-1]...)
 		}
 		r.check(okSent && pairSet(P, true) == pairSet(mid, false), "C06.escape", rs.fn, "reader chain is the inverse of the printer's (sentinel idiom)", rs.fn.Pos(), "inverse with the escaped escape character protected first and restored last", "reader chain "+pairSet(R, false)+" does not invert printer chain "+pairSet(P, false))
+		if okSent {
+			// sequential global replacements need a sentinel to protect the escaped escape character, and the
+			// sentinel itself is then rewritten: a string that contains it does not survive
+			r.bad("C06.escape", rs.fn, "un-escaping in several passes with sentinel "+fmt.Sprintf("%q", R[0].to), rs.fn.Pos(), "every occurrence of the sentinel character in a string is turned into the escape character when read back: strings containing it do not round-trip; un-escape in a single left-to-right pass instead")
+		}
 	}
 	// escape char first, all `to` start with it
 	esc := P[0].from
